@@ -43,6 +43,18 @@ func vpEntry(c string) string {
 		return "gfet4t7; dur=-5"
 	case "bad":
 		return "gfet4t7; dur=12x"
+	case "short":
+		return "gfet4t7"
+	case "short2":
+		return "gfet4t7; dur"
+	case "alike":
+		return "gfet4t7-backend; dur=999"
+	case "empty":
+		return ""
+	case "prefixonly":
+		return "gfet4t7; dur="
+	case "spaces":
+		return "gfet4t7; dur= 12"
 	}
 	return "cfr; dur=5"
 }
